@@ -123,7 +123,7 @@ fn run_long_pause(ctx: &Ctx, env: &Env, prop: &str, cseed: u64, base_case: &Conv
     if cv != base_canon {
         let diff_at = cv.iter().zip(base_canon.iter()).position(|(a, b)| a != b).unwrap_or(cv.len().min(base_canon.len()));
         rep.violation(Violation {
-            signature: format!("C13/{}/{}/differs-after-long-pause", prop, base_case.label),
+            signature: format!("C13/{}/{}/{}", prop, base_case.label, if paced_to.is_some() { "differs-after-slow-delivery" } else { "differs-after-long-pause" }),
             what: match paced_to {
                 None => format!("a pause of 5.6 s after byte {} of a {}-byte conversation changes the outcome (first difference in item #{})", at, n, diff_at),
                 Some(to) => format!("eight pauses of 0.7 s while bytes {}..{} of a {}-byte conversation are delivered change the outcome (first difference in item #{})", at, to, n, diff_at),
